@@ -217,6 +217,41 @@ def _memo(tree):
                      "`if key in cache: return cache[key]; result = f(*args); cache[key] = result; return result`")
 
 
+def _todense_fresh(fn):
+    """COO.todense hands the caller a PRIVATE buffer: the one returned name is bound exactly once, by a fresh
+    allocation `np.full(self.shape, self.fill_value, self.dtype)`, and there is no other `return`."""
+    rets = [n for n in ast.walk(fn) if isinstance(n, ast.Return)]
+    if len(rets) != 1 or not isinstance(rets[0].value, ast.Name):
+        return False, f"{len(rets)} return statement(s): " + "; ".join(ast.unparse(r) for r in rets)
+    name = rets[0].value.id
+    binds = []
+    for n in ast.walk(fn):
+        if isinstance(n, (ast.Assign, ast.AnnAssign, ast.AugAssign)):
+            tg = n.targets if isinstance(n, ast.Assign) else [n.target]
+            for t in tg:
+                for x in ast.walk(t):
+                    if isinstance(x, ast.Name) and x.id == name and not isinstance(getattr(t, "value", None), ast.Name):
+                        if isinstance(t, ast.Name):
+                            binds.append(n)
+    if len(binds) != 1 or not isinstance(binds[0], ast.Assign):
+        return False, f"{name} bound {len(binds)} times"
+    v = ast.unparse(binds[0].value)
+    if v != "np.full(self.shape, self.fill_value, self.dtype)":
+        return False, f"{name} = {v}"
+    return True, f"{name} = {v}; return {name}"
+
+
+def _goes_through_todense(tree, cls, fn):
+    """every return of cls.fn returns an expression that calls .todense() (maybe_densify, __array__) or raises"""
+    for n in tree.body:
+        if isinstance(n, ast.ClassDef) and n.name == cls:
+            for m in n.body:
+                if isinstance(m, ast.FunctionDef) and m.name == fn:
+                    rets = [r for r in ast.walk(m) if isinstance(r, ast.Return)]
+                    return bool(rets) and all(r.value is not None and "todense()" in ast.unparse(r.value) for r in rets)
+    return None
+
+
 def _attr_writers(tree, names):
     """functions of class COO that assign self.<name> for name in names"""
     out = {}
@@ -242,12 +277,17 @@ def extract(repo):
     csr = _attr_memo(_find_class_func(tree, "COO", "tocsr"), "_csr", "_csc", "tocsr", "tocsc")
     csc = _attr_memo(_find_class_func(tree, "COO", "tocsc"), "_csc", "_csr", "tocsc", "tocsr")
     memo = _memo(ctree)
+    td_ok, td_text = _todense_fresh(_find_class_func(tree, "COO", "todense"))
+    stree, _ssrc, _sp = _parse(repo, "sparse/numba_backend/_sparse_array.py")
+    via = {"__array__": _goes_through_todense(stree, "SparseArray", "__array__"),
+           "maybe_densify": _goes_through_todense(tree, "COO", "maybe_densify")}
     writers = _attr_writers(tree, {"_csr", "_csc", "_cache"})
     if writers.get("_csr", []) != ["tocsr"] or writers.get("_csc", []) != ["tocsc"]:
         raise ShapeError(f"unexpected writers of _csr/_csc: {writers}")
     if csr["via_partner"] is not False:
         raise ShapeError("COO.tocsr: last stage is not self._tocsr()")
     return {"transpose": tr, "reshape": rs, "enable_caching": ec, "tocsr": csr, "tocsc": csc, "memo": memo,
+            "todense_fresh": td_ok, "todense_text": td_text, "dense_via_todense": via,
             "cache_writers": writers.get("_cache", []), "core_path": path, "common_path": cpath,
             "hash": hashlib.sha256((src + csrc).encode()).hexdigest()[:16]}
 
@@ -361,6 +401,11 @@ Definition tocsc_final_via_tocsr : bool := {_b(e['tocsc']['via_partner'])}.
 Definition attr_memo_three_stage : bool := true.
 (* _memoize_dtype.wrapped: `if key in cache: return cache[key]; result = f( *args); cache[key] = result` *)
 Definition memo_check_then_set : bool := true.
+(* COO.todense: `{e['todense_text'].replace('(*', '( *')}` — the array handed to the caller is a fresh allocation
+   and there is no other return (so an in-place write by the caller cannot reach the operand's storage) *)
+Definition todense_result_fresh : bool := {_b(e['todense_fresh'])}.
+(* SparseArray.maybe_densify / __array__ return what self.todense() returns *)
+Definition densify_paths_via_todense : bool := {_b(all(v is True for v in e['dense_via_todense'].values()))}.
 (* ... and nothing in the wrapper removes an entry (no clear / del / pop / popitem on the dict) *)
 Definition memo_no_deletion : bool := true.
 """
@@ -368,6 +413,8 @@ Definition memo_no_deletion : bool := true.
                            "transpose_lookup": e["transpose"]["mode"], "reshape_lookup": e["reshape"]["mode"],
                            "maxlen": e["enable_caching"]["maxlen"],
                            "tocsc_final_via_tocsr": e["tocsc"]["via_partner"],
+                           "todense_fresh": e["todense_fresh"], "todense": e["todense_text"],
+                           "dense_via_todense": e["dense_via_todense"],
                            "cache_writers": e["cache_writers"]}}
     return {"S_threads.v": text}, rep
 
